@@ -189,6 +189,28 @@ var routes = ev.Register(&ev.P[momentCase]{
 		}
 		// eight characters: deprecated GetBaZi* family vs the EightChar object under its default sect
 		ec := l.GetEightChar()
+		// the deprecated family reads the lunar date's own chart, whichever convention it is switched to
+		ec.SetSect(1)
+		if bz := l.GetBaZi(); bz != [4]string{ec.GetYear(), ec.GetMonth(), ec.GetDay(), ec.GetTime()} {
+			ec.SetSect(2)
+			return fail("GetBaZi vs EightChar after SetSect(1)", fmt.Sprint(bz), fmt.Sprint(l.GetEightChar()))
+		}
+		if a, b := l.GetBaZiShiShenGan(), [4]string{ec.GetYearShiShenGan(), ec.GetMonthShiShenGan(), ec.GetDayShiShenGan(), ec.GetTimeShiShenGan()}; a != b {
+			ec.SetSect(2)
+			return fail("GetBaZiShiShenGan vs EightChar after SetSect(1)", fmt.Sprint(a), fmt.Sprint(b))
+		}
+		if a, b := l.GetBaZiNaYin(), [4]string{ec.GetYearNaYin(), ec.GetMonthNaYin(), ec.GetDayNaYin(), ec.GetTimeNaYin()}; a != b {
+			ec.SetSect(2)
+			return fail("GetBaZiNaYin vs EightChar after SetSect(1)", fmt.Sprint(a), fmt.Sprint(b))
+		}
+		if a, b := l.GetBaZiWuXing(), [4]string{ec.GetYearWuXing(), ec.GetMonthWuXing(), ec.GetDayWuXing(), ec.GetTimeWuXing()}; a != b {
+			ec.SetSect(2)
+			return fail("GetBaZiWuXing vs EightChar after SetSect(1)", fmt.Sprint(a), fmt.Sprint(b))
+		}
+		if a, b := l.GetBaZiShiShenZhi()[2], strs(l.GetBaZiShiShenDayZhi())[0]; a != b {
+			ec.SetSect(2)
+			return fail("GetBaZiShiShenZhi()[2] vs GetBaZiShiShenDayZhi()[0] after SetSect(1)", a, b)
+		}
 		ec.SetSect(2)
 		bz := l.GetBaZi()
 		if bz != [4]string{ec.GetYear(), ec.GetMonth(), ec.GetDay(), ec.GetTime()} {
